@@ -86,6 +86,8 @@ func c13Catalogue() []c13Obj {
 		{ID: "pm", Lat: -45, Lon: -90}, {ID: "pq", Lat: 45, Lon: -179.9},
 		{ID: "r1", Rect: true, Lat: -1, Lon: -1, Lat2: 1, Lon2: 1}, {ID: "r2", Rect: true, Lat: 10, Lon: 170, Lat2: 20, Lon2: 180},
 		{ID: "r3", Rect: true, Lat: -5, Lon: -179.9, Lat2: 5, Lon2: -178}, {ID: "r4", Rect: true, Lat: 80, Lon: -10, Lat2: 89.9, Lon2: 10},
+		// rectangles that are degenerate on one axis (a meridian segment, a segment of a parallel)
+		{ID: "rv", Rect: true, Lat: -3, Lon: 20, Lat2: 3, Lon2: 20}, {ID: "rh", Rect: true, Lat: 30, Lon: -20, Lat2: 30, Lon2: 20},
 	}
 }
 
@@ -212,7 +214,7 @@ func c13Query(res *Result, c *Cli, key string, objs []c13Obj, qlat, qlon float64
 }
 
 func checkC13(job *Job, res *Result) {
-	res.Rule = "SEQ: all datasets of <= 2 (thorough 3) objects from a 16-object catalogue (lattice points at poles / antimeridian, duplicates, 4 rectangles) each built by 3 histories, plus 2 datasets of 130 objects; x 49 lattice query points (+ 6 off-lattice near the antimeridian); per query: full order, DISTANCE values, LIMIT k for every k <= 4, radius = each reported distance, 4 fixed radii; distinct = distinct (dataset, query point)"
+	res.Rule = "SEQ: all datasets of <= 2 (thorough 3) objects from a 18-object catalogue (lattice points at poles / antimeridian, duplicates, 4 rectangles, 2 rectangles degenerate on one axis) each built by 5 histories (direct; moved into place; extras inserted and deleted; ids that first held an empty geometry; ids that first held a string / re-created), plus 4 datasets of 130 objects (antimeridian, pole, one shared latitude, one shared longitude); x 49 lattice query points (+ 6 off-lattice near the antimeridian); per query: full order, DISTANCE values, LIMIT k for every k <= 4, radius = each reported distance, 4 fixed radii; distinct = distinct (dataset, query point)"
 	res.Assumptions = append(res.Assumptions, "distances on a sphere of radius 6371 km; tolerance 1e-6 relative + 1 m; order inversions count only beyond the tolerance; the distance of an extended object is the distance to its bounding rectangle")
 	cat := c13Catalogue()
 	maxN := 2
@@ -259,7 +261,7 @@ func checkC13(job *Job, res *Result) {
 			for _, i := range sub {
 				objs = append(objs, cat[i])
 			}
-			for hist := 0; hist < 3; hist++ {
+			for hist := 0; hist < 5; hist++ {
 				c.Do("DROP", "nk")
 				switch hist {
 				case 0:
@@ -281,6 +283,23 @@ func checkC13(job *Job, res *Result) {
 					c.Do("SET", "nk", "extra2", "BOUNDS", "-10", "-180", "10", "-170")
 					c.Do("DEL", "nk", "extra1")
 					c.Do("DEL", "nk", "extra2")
+				case 3: // each id first holds an empty geometry (never in the spatial index)
+					for _, o := range objs {
+						c.Do("SET", "nk", o.ID, "OBJECT", `{"type":"GeometryCollection","geometries":[]}`)
+					}
+					for _, o := range objs {
+						c.Do(o.setArgs("nk")...)
+					}
+				case 4: // each id first holds a string, the last one is re-created after a delete
+					for _, o := range objs {
+						c.Do("SET", "nk", o.ID, "STRING", "s")
+					}
+					for _, o := range objs {
+						c.Do(o.setArgs("nk")...)
+					}
+					c.Do("DEL", "nk", objs[len(objs)-1].ID)
+					c.Do("SET", "nk", objs[len(objs)-1].ID, "OBJECT", `{"type":"FeatureCollection","features":[]}`)
+					c.Do(objs[len(objs)-1].setArgs("nk")...)
 				}
 				for qi, p := range qps {
 					if hist > 0 && qi%5 != 0 {
@@ -302,9 +321,9 @@ func checkC13(job *Job, res *Result) {
 			res.States++
 		}
 		// ---- structure scope: 130 objects (inner R-tree nodes), two regions
-		if job.Shard < 2 {
+		if job.Shard < 4 {
 			var objs []c13Obj
-			region := []string{"antimeridian", "pole"}[job.Shard]
+			region := []string{"antimeridian", "pole", "equator", "meridian"}[job.Shard%4]
 			for i := 0; i < 130; i++ {
 				var o c13Obj
 				if region == "antimeridian" {
@@ -313,6 +332,10 @@ func checkC13(job *Job, res *Result) {
 						lon -= 360
 					}
 					o = c13Obj{ID: fmt.Sprintf("s%03d", i), Lat: -2 + float64(i/26), Lon: lon}
+				} else if region == "equator" { // one shared latitude: every inner node is degenerate
+					o = c13Obj{ID: fmt.Sprintf("s%03d", i), Lat: 0, Lon: -65 + float64(i)}
+				} else if region == "meridian" { // one shared longitude
+					o = c13Obj{ID: fmt.Sprintf("s%03d", i), Lat: -65 + float64(i), Lon: 179}
 				} else {
 					o = c13Obj{ID: fmt.Sprintf("s%03d", i), Lat: 84 + float64(i%13)*0.5, Lon: -180 + float64(i/13)*36}
 				}
@@ -330,7 +353,7 @@ func checkC13(job *Job, res *Result) {
 			for i := 0; i < 130; i += 3 {
 				c.Do(objs[i].setArgs("sk")...)
 			}
-			for _, p := range []qp{{0, 179.95}, {0, -179.95}, {1, 180}, {-1, 178}, {89, 10}, {85, -170}, {90, 0}, {0, 0}, {86, 179.9}} {
+			for _, p := range []qp{{0, 179.95}, {0, -179.95}, {1, 180}, {-1, 178}, {89, 10}, {85, -170}, {90, 0}, {0, 0}, {86, 179.9}, {40, 3}, {-30, 50}, {10, -179}} {
 				viol := func(sig, detail string) {
 					res.Violate("C13/"+sig, detail+"  [130-object dataset around the "+region+"]", map[string]any{"region": region, "lat": p.lat, "lon": p.lon})
 				}
